@@ -61,18 +61,30 @@ class Acc:
             self._last = case
 
     def violation(self, site, mode, case, detail=""):
+        v = {
+            "site": site,
+            "mode": mode,
+            "case": case,
+            "detail": str(detail)[:600],
+            "hashseed": self.job.get("hashseed", 0),
+        }
+        # listed known findings never use up the per-signature quota of unlisted violations
+        try:
+            from mcv import findings
+
+            ent = findings.classify(self.job.get("prop", ""), v)
+        except Exception:  # noqa: BLE001
+            ent = None
+        if ent is not None:
+            k = ("known", ent["id"])
+            self.vsigs[k] = self.vsigs.get(k, 0) + 1
+            if self.vsigs[k] == 1:
+                self.violations.append(v)
+            return
         sig = (site, mode)
         self.vsigs[sig] = self.vsigs.get(sig, 0) + 1
         if self.vsigs[sig] <= self.MAX_PER_SIG and len(self.violations) < self.MAX_TOTAL:
-            self.violations.append(
-                {
-                    "site": site,
-                    "mode": mode,
-                    "case": case,
-                    "detail": str(detail)[:600],
-                    "hashseed": self.job.get("hashseed", 0),
-                }
-            )
+            self.violations.append(v)
 
     def result(self):
         samples = list(self.samples)
